@@ -14,7 +14,35 @@ use serde_json::{Value, json};
 use std::collections::HashMap;
 use std::sync::{Arc, Barrier};
 
-type LT = DefaultLexerTypes<u32>;
+/// What the comparison needs from the run-time side of a pair, whatever its storage width.
+pub trait RtPair {
+    fn kind(&self) -> &str;
+    fn param(&self) -> &str;
+    fn has_unit(&self) -> bool;
+    fn parse(&self, inp: &str) -> CtOut;
+    fn token_epps(&self) -> Vec<(u32, Option<String>)>;
+    fn rule_idx(&self, n: &str) -> Option<usize>;
+    fn token_idx(&self, n: &str) -> Option<usize>;
+}
+
+pub trait RtLex {
+    fn describe(&self) -> String;
+    fn lex(&self, inp: &str) -> String;
+    fn nstates(&self) -> usize;
+}
+
+pub mod w32 {
+    pub type T = u32;
+    include!("width.rs");
+}
+pub mod w16 {
+    pub type T = u16;
+    include!("width.rs");
+}
+pub mod w8 {
+    pub type T = u8;
+    include!("width.rs");
+}
 
 pub struct CtOut {
     pub lexed: String,
@@ -34,72 +62,7 @@ pub struct LexFns {
     pub describe: fn() -> String,
 }
 
-/// Everything a lexer definition says about its rules and start states.
-pub fn describe_lexerdef(ld: &LRNonStreamingLexerDef<LT>) -> String {
-    let mut s = String::new();
-    for r in ld.iter_rules() {
-        s.push_str(&format!(
-            "rule id={:?} name={:?} re={:?} states={:?} target={:?}\n",
-            r.tok_id(),
-            r.name(),
-            r.re_str(),
-            r.start_states(),
-            r.target_state()
-        ));
-    }
-    for st in ld.iter_start_states() {
-        s.push_str(&format!("state {:?}\n", st));
-    }
-    s
-}
-
 include!(concat!(env!("OUT_DIR"), "/mods.rs"));
-
-pub fn show_lexemes(lexer: &dyn Lexer<LT>) -> String {
-    let mut s = String::new();
-    for r in lexer.iter() {
-        match r {
-            Ok(l) => s.push_str(&format!("{}@{}+{} ", l.tok_id(), l.span().start(), l.span().len())),
-            Err(e) => s.push_str(&format!("ERR@{}/{:?} ", e.span().start(), e.lexing_state())),
-        }
-    }
-    s
-}
-
-pub fn show_tree(n: &Node<DefaultLexeme<u32>, u32>) -> String {
-    match n {
-        Node::Term { lexeme } => format!("t{}@{}+{}{}", lexeme.tok_id(), lexeme.span().start(), lexeme.span().len(), if lexeme.faulty() { "!" } else { "" }),
-        Node::Nonterm { ridx, nodes } => format!("(r{} {})", usize::from(*ridx), nodes.iter().map(show_tree).collect::<Vec<_>>().join(" ")),
-    }
-}
-
-/// One string per error: position plus the repair sequences as a sorted set.
-pub fn conv_errors(errs: Vec<LexParseError<u32, LT>>) -> Vec<String> {
-    errs.iter()
-        .map(|e| match e {
-            LexParseError::LexError(e) => format!("lex@{}", e.span().start()),
-            LexParseError::ParseError(pe) => {
-                let l = pe.lexeme();
-                let mut reps: Vec<String> = pe
-                    .repairs()
-                    .iter()
-                    .map(|seq| {
-                        seq.iter()
-                            .map(|r| match r {
-                                ParseRepair::Insert(t) => format!("I{}", usize::from(*t)),
-                                ParseRepair::Delete(l) => format!("D@{}", l.span().start()),
-                                ParseRepair::Shift(l) => format!("S@{}", l.span().start()),
-                            })
-                            .collect::<Vec<_>>()
-                            .join(",")
-                    })
-                    .collect();
-                reps.sort();
-                format!("parse t{}@{}+{} st{} {:?}", l.tok_id(), l.span().start(), l.span().len(), usize::from(pe.stidx()), reps)
-            }
-        })
-        .collect()
-}
 
 fn set_hooks() {
     #[cfg(grmtools_verif)]
@@ -116,134 +79,6 @@ fn cap_hit() -> bool {
     }
     #[allow(unreachable_code)]
     false
-}
-
-/// The run-time pipeline on the same sources.
-struct Rt {
-    grm: YaccGrammar<u32>,
-    st: lrtable::StateTable<u32>,
-    ld: LRNonStreamingLexerDef<LT>,
-    kind: String,
-    rk: RecoveryKind,
-    /// %parse-param of the pair: "none" | "u64" | "generic" | "log", and the value passed
-    param: String,
-    pval: u64,
-    /// rules whose action type is the unit type (by rule index of the grammar)
-    unit: Vec<bool>,
-}
-
-/// What the run-time twin of the action template receives as parse parameter.
-#[derive(Clone)]
-struct RtParam {
-    pval: u64,
-    log: std::rc::Rc<std::cell::RefCell<Vec<String>>>,
-}
-
-fn build_rt(p: &Value, ysrc: &str, lsrc: &str) -> Result<Rt, String> {
-    let kind = p["kind"].as_str().unwrap().to_string();
-    let yk = match kind.as_str() {
-        "Grmtools" => YaccKind::Grmtools,
-        "NoAction" => YaccKind::Original(YaccOriginalActionKind::NoAction),
-        "UserAction" => YaccKind::Original(YaccOriginalActionKind::UserAction),
-        _ => YaccKind::Original(YaccOriginalActionKind::GenericParseTree),
-    };
-    let grm = YaccGrammar::<u32>::new_with_storaget(yk, ysrc).map_err(|e| format!("rt grammar: {e:?}"))?;
-    let (_, st) = from_yacc(&grm, Minimiser::Pager).map_err(|e| format!("rt table: {e}"))?;
-    let s = &p["settings"];
-    let mut ld = if s["builder_case_insensitive"].is_boolean() || s["builder_dot_matches_new_line"].is_boolean() {
-        // flags given through the builder: the header of the .l file (none in that case) is not used
-        let mut f = UNSPECIFIED_LEX_FLAGS;
-        f.case_insensitive = s["builder_case_insensitive"].as_bool();
-        f.dot_matches_new_line = s["builder_dot_matches_new_line"].as_bool();
-        LRNonStreamingLexerDef::<LT>::new_with_options(lsrc, f).map_err(|e| format!("rt lexer: {:?}", e.iter().map(|x| x.to_string()).collect::<Vec<_>>()))?
-    } else {
-        LRNonStreamingLexerDef::<LT>::from_str(lsrc).map_err(|e| format!("rt lexer: {:?}", e.iter().map(|x| x.to_string()).collect::<Vec<_>>()))?
-    };
-    let map: HashMap<&str, u32> = grm.tokens_map().iter().map(|(k, v)| (*k, u32::from(*v))).collect();
-    ld.set_rule_ids(&map);
-    // effective recoverer: builder setting wins over the header, default CPCT+
-    let rk = match (s["builder_recoverer"].as_str(), s["header_recoverer"].as_str()) {
-        (Some("None"), _) => RecoveryKind::None,
-        (Some(_), _) => RecoveryKind::CPCTPlus,
-        (None, Some("None")) => RecoveryKind::None,
-        _ => RecoveryKind::CPCTPlus,
-    };
-    let param = s["param"].as_str().unwrap_or("none").to_string();
-    let pval = 7 + p["id"].as_u64().unwrap() % 5;
-    // unit_rules is indexed by the source order of the user's rules; map through the rule names
-    let mut unit = vec![false; usize::from(grm.rules_len())];
-    if let (Some(u), Some(names)) = (s["unit_rules"].as_array(), p["rules"].as_array()) {
-        for (b, n) in u.iter().zip(names.iter()) {
-            if b.as_bool() == Some(true) {
-                if let Some(r) = grm.rule_idx(n.as_str().unwrap()) {
-                    unit[usize::from(r)] = true;
-                }
-            }
-        }
-    }
-    Ok(Rt { grm, st, ld, kind, rk, param, pval, unit })
-}
-
-fn rt_parse(rt: &Rt, input: &str) -> CtOut {
-    let lexer = rt.ld.lexer(input);
-    let lexed = show_lexemes(&lexer);
-    let pb = RTParserBuilder::<u32, LT>::new(&rt.grm, &rt.st).recoverer(rt.rk);
-    match rt.kind.as_str() {
-        "Grmtools" | "UserAction" => {
-            // the action template of the generated grammars, evaluated natively
-            let nprods = usize::from(rt.grm.prods_len());
-            type Act<'x> = Box<dyn Fn(RIdx<u32>, &dyn NonStreamingLexer<LT>, Span, std::vec::Drain<AStackType<DefaultLexeme<u32>, String>>, RtParam) -> String + 'x>;
-            let mut boxed: Vec<Act> = vec![];
-            for p in 0..nprods {
-                let mode = rt.param.clone();
-                let unit_rule = rt.unit[usize::from(rt.grm.prod_to_rule(cfgrammar::PIdx(p as u32)))];
-                boxed.push(Box::new(move |_ridx, lexer, span, args, prm: RtParam| {
-                    let mut s = format!("p{p}[{}..{} $ ", span.start(), span.end());
-                    match mode.as_str() {
-                        "u64" | "generic" => s.push_str(&format!("P{} ", prm.pval)),
-                        _ => {}
-                    }
-                    for a in args {
-                        match a {
-                            AStackType::ActionType(v) => {
-                                s.push_str(&v);
-                                s.push(',');
-                            }
-                            AStackType::Lexeme(l) => {
-                                if l.faulty() {
-                                    s.push_str(&format!("E{}@{},", l.tok_id(), l.span().start()));
-                                } else {
-                                    s.push_str(&format!("T{}:{:?},", l.tok_id(), lexer.span_str(l.span())));
-                                }
-                            }
-                        }
-                    }
-                    s.push(']');
-                    if mode == "log" {
-                        prm.log.borrow_mut().push(s.clone());
-                    }
-                    if unit_rule { "()".to_string() } else { s }
-                }));
-            }
-            let refs: Vec<&dyn Fn(RIdx<u32>, &dyn NonStreamingLexer<LT>, Span, std::vec::Drain<AStackType<DefaultLexeme<u32>, String>>, RtParam) -> String> = boxed.iter().map(|b| &**b).collect();
-            let log = std::rc::Rc::new(std::cell::RefCell::new(Vec::<String>::new()));
-            let (v, e) = pb.parse_actions(&lexer, &refs, RtParam { pval: rt.pval, log: log.clone() });
-            let v = if rt.param == "log" {
-                v.map(|v| format!("{v} LOG[{}]", log.borrow().join(";"))).or_else(|| Some(format!("<none> LOG[{}]", log.borrow().join(";"))))
-            } else {
-                v
-            };
-            CtOut { lexed, value: v, errors: conv_errors(e) }
-        }
-        "NoAction" => {
-            let e = pb.parse_map(&lexer, &|_| (), &|_, _| ()).1;
-            CtOut { lexed, value: if e.is_empty() { Some("()".into()) } else { None }, errors: conv_errors(e) }
-        }
-        _ => {
-            let (v, e) = pb.parse_generictree(&lexer);
-            CtOut { lexed, value: v.map(|t| show_tree(&t)), errors: conv_errors(e) }
-        }
-    }
 }
 
 /// Comparable summary: everything when no error has more than one repair sequence, otherwise
@@ -275,7 +110,12 @@ fn main() {
         };
         let ysrc = std::fs::read_to_string(format!("{here}/gen/g{id}.y")).unwrap();
         let lsrc = std::fs::read_to_string(format!("{here}/gen/g{id}.l")).unwrap();
-        let rt = match build_rt(p, &ysrc, &lsrc) {
+        let rt = match p["settings"]["storaget"].as_str() {
+            Some("u16") => w16::build_pair(p, &ysrc, &lsrc),
+            Some("u8") => w8::build_pair(p, &ysrc, &lsrc),
+            _ => w32::build_pair(p, &ysrc, &lsrc),
+        };
+        let rt = match rt {
             Ok(rt) => rt,
             Err(e) => {
                 mismatches.push(json!({"id": id, "what": "run-time construction fails although the compile-time builders accepted the sources", "detail": e}));
@@ -283,10 +123,11 @@ fn main() {
             }
         };
         pairs_run += 1;
-        bump(&format!("kind:{}", rt.kind), &mut classes);
-        if rt.kind == "Grmtools" || rt.kind == "UserAction" {
-            bump(&format!("parse-param:{}", rt.param), &mut classes);
-            if rt.unit.iter().any(|b| *b) {
+        bump(&format!("kind:{}", rt.kind()), &mut classes);
+        bump(&format!("storage:{}", p["settings"]["storaget"].as_str().unwrap_or("u32")), &mut classes);
+        if rt.kind() == "Grmtools" || rt.kind() == "UserAction" {
+            bump(&format!("parse-param:{}", rt.param()), &mut classes);
+            if rt.has_unit() {
                 bump("unit-typed-rules", &mut classes);
             }
         }
@@ -319,24 +160,23 @@ fn main() {
             }
         }
         // token_epp and constants
-        for t in rt.grm.iter_tidxs() {
-            let ct = (f.token_epp)(u32::from(t));
-            let r = rt.grm.token_epp(t).map(|s| s.to_string());
+        for (t, r) in rt.token_epps() {
+            let ct = (f.token_epp)(t);
             comparisons += 1;
             if ct != r {
-                mismatches.push(json!({"id": id, "what": "token_epp differs", "token": usize::from(t), "ct": ct, "rt": r}));
+                mismatches.push(json!({"id": id, "what": "token_epp differs", "token": t, "ct": ct, "rt": r}));
             }
         }
         for (name, v) in (f.rule_consts)() {
             comparisons += 1;
-            if rt.grm.rule_idx(name).map(usize::from) != Some(v) {
-                mismatches.push(json!({"id": id, "what": "R_ constant differs", "rule": name, "ct": v, "rt": rt.grm.rule_idx(name).map(usize::from)}));
+            if rt.rule_idx(name) != Some(v) {
+                mismatches.push(json!({"id": id, "what": "R_ constant differs", "rule": name, "ct": v, "rt": rt.rule_idx(name)}));
             }
         }
         for (name, v) in (f.token_consts)() {
             comparisons += 1;
-            if rt.grm.token_idx(name).map(usize::from) != Some(v) {
-                mismatches.push(json!({"id": id, "what": "N_ constant differs", "token": name, "ct": v, "rt": rt.grm.token_idx(name).map(usize::from)}));
+            if rt.token_idx(name) != Some(v) {
+                mismatches.push(json!({"id": id, "what": "N_ constant differs", "token": name, "ct": v, "rt": rt.token_idx(name)}));
             }
         }
         let mut nontrivial = false;
@@ -345,7 +185,7 @@ fn main() {
             let ct = (f.parse)(inp);
             let ct_hit = cap_hit();
             set_hooks();
-            let r = rt_parse(&rt, inp);
+            let r = rt.parse(inp);
             let rt_hit = cap_hit();
             if ct_hit || rt_hit {
                 bump("cap-hit", &mut classes);
@@ -376,8 +216,9 @@ fn main() {
     for p in spec["lexers"].as_array().cloned().unwrap_or_default() {
         let id = p["id"].as_u64().unwrap();
         let lsrc = std::fs::read_to_string(format!("{here}/gen/x{id}.l")).unwrap();
-        let rt = match p["settings"]["rt_flags"].as_object() {
-            None => LRNonStreamingLexerDef::<LT>::from_str(&lsrc),
+        let owned: Vec<(String, u32)> = p["ids"].as_array().unwrap().iter().map(|e| (e[0].as_str().unwrap().to_string(), e[1].as_u64().unwrap() as u32)).collect();
+        let flags = match p["settings"]["rt_flags"].as_object() {
+            None => None,
             Some(fl) => {
                 // flags given through the builder: the run-time counterpart is new_with_options
                 let mut f = UNSPECIFIED_LEX_FLAGS;
@@ -399,9 +240,15 @@ fn main() {
                     }
                 }
                 bump(if p["settings"]["section_and_builder"] == json!(true) { "lexer-only:builder-overrides-section" } else { "lexer-only:flags-through-builder" }, &mut classes);
-                LRNonStreamingLexerDef::<LT>::new_with_options(&lsrc, f)
+                Some(f)
             }
         };
+        let rt = match p["settings"]["storaget"].as_str() {
+            Some("u16") => w16::build_lexer(&lsrc, flags, &owned),
+            Some("u8") => w8::build_lexer(&lsrc, flags, &owned),
+            _ => w32::build_lexer(&lsrc, flags, &owned),
+        };
+        bump(&format!("lexer-only:storage:{}", p["settings"]["storaget"].as_str().unwrap_or("u32")), &mut classes);
         let Some(f) = lexer_fns(id) else {
             bump("lexer-not-built", &mut classes);
             if rt.is_ok() {
@@ -410,23 +257,20 @@ fn main() {
             }
             continue;
         };
-        let mut rt = match rt {
+        let rt = match rt {
             Ok(d) => d,
             Err(e) => {
-                mismatches.push(json!({"id": id, "what": "run-time lexer construction fails although the compile-time builder accepted the source", "detail": format!("{:?}", e.iter().map(|x| x.to_string()).collect::<Vec<_>>())}));
+                mismatches.push(json!({"id": id, "what": "run-time lexer construction fails although the compile-time builder accepted the source", "detail": e}));
                 continue;
             }
         };
-        let owned: Vec<(String, u32)> = p["ids"].as_array().unwrap().iter().map(|e| (e[0].as_str().unwrap().to_string(), e[1].as_u64().unwrap() as u32)).collect();
-        let map: HashMap<&str, u32> = owned.iter().map(|(k, v)| (k.as_str(), *v)).collect();
-        rt.set_rule_ids(&map);
         pairs_run += 1;
         bump("lexer-only", &mut classes);
-        if rt.iter_start_states().count() > 1 {
+        if rt.nstates() > 1 {
             bump("lexer-only:start-states", &mut classes);
         }
         comparisons += 1;
-        let (dc, dr) = ((f.describe)(), describe_lexerdef(&rt));
+        let (dc, dr) = ((f.describe)(), rt.describe());
         if dc != dr {
             mismatches.push(json!({"id": id, "what": "generated lexer definition differs from the run-time one", "ct": dc, "rt": dr}));
             continue;
@@ -435,11 +279,11 @@ fn main() {
             let inp = inp.as_str().unwrap();
             comparisons += 1;
             let ct = (f.lex)(inp);
-            let r = show_lexemes(&rt.lexer(inp));
+            let r = rt.lex(inp);
             if ct != r {
                 mismatches.push(json!({"id": id, "what": "compile-time and run-time lexers differ", "input": inp, "ct": ct, "rt": r, "lexer": lsrc}));
                 break;
-            } else if samples.len() < 8 && ct.split(' ').count() > 3 && rt.iter_start_states().count() > 1 {
+            } else if samples.len() < 8 && ct.split(' ').count() > 3 && rt.nstates() > 1 {
                 samples.push(json!({"id": id, "kind": "LexOnly", "lexer": lsrc, "input": inp, "result": ct}));
             }
         }
